@@ -1581,7 +1581,7 @@ MANIFEST = {
 }
 FINDINGS = [
     {"status": "fixed", "key": "simplex:nontermination:[[2,3,-2,0,0],[-1,-1,-1,-4,-1],[-4,-3,-1,4,2],[-3,2,-3,-2,1],[1,0,2,1,0],[1,-2,-1,2,2],[-3,1,0,1,0],[2,0,1,1,0]]/glllllgg",
-     "commit": "fixes/C16-5.patch",
+     "commit": "a056458",
      "what": "Simplex.check() repaired the LAST violated basic variable with the FIRST suitable non-basic one and cycles: "
              "handle_assertion() never returns on this 4-variable, 8-row system (176000 pivots in 60 s), nor on a satisfiable 5-variable 13-row "
              "system; found by a search over 3.3 million random degenerate systems; fixed by Bland's rule (smallest violated basic variable)"},
